@@ -563,8 +563,23 @@ func (env *SpecEnv) sliceOf(a Val, lo, hi *Val) (Val, error) {
 			h = e.toBV64(*hi)
 		}
 		return Val{T: a.T, S: e.substr(a.S, l, h, "true")}, nil
+	case *types.Pointer: // addr(x.f)[lo:hi] with f an array field
+		pt := a.T.Underlying().(*types.Pointer)
+		if arr, ok := pt.Elem().Underlying().(*types.Array); ok {
+			n := bvLitI(64, arr.Len())
+			l, h := zero, n
+			if lo != nil {
+				l = e.toBV64(*lo)
+			}
+			if hi != nil {
+				h = e.toBV64(*hi)
+			}
+			v := mkSlice(types.NewSlice(arr.Elem()), a.S, l, bvSub(h, l), bvSub(n, l))
+			v.NN = true
+			return v, nil
+		}
 	}
-	return Val{}, fmt.Errorf("cannot slice %s", a.T)
+	return Val{}, fmt.Errorf("cannot slice %s (for an array field write addr(x.f)[:])", a.T)
 }
 
 func (env *SpecEnv) evalBin(x *SExpr) (Val, error) {
@@ -1203,6 +1218,34 @@ func (env *SpecEnv) havocLoc(x *SExpr, st *State) error {
 			return fmt.Errorf("modifies %s: not a slice", x)
 		}
 		el := a.T.Underlying().(*types.Slice).Elem()
+		if x.Op == "slice" && (x.Args[1] != nil || x.Args[2] != nil) {
+			// s[lo:hi] with explicit bounds: exactly the elements of that range; the rest of the backing
+			// array is kept. (s[:] and s[i] stand for the whole backing array.)
+			a, err = env.eval(x)
+			if err != nil {
+				return err
+			}
+			lo, hi := a.sOff(), bvAdd(a.sOff(), a.sLen())
+			for k, s := range leafSorts(el) {
+				key := elemKey(el, k)
+				srt := arrSort(sRef, arrSort(sBV64, s))
+				arr := e.heapGet(st, key, srt)
+				oldIn := sel(arr, a.sBase())
+				m := e.fresh("mod_elems", arrSort(sBV64, s))
+				e.nf++
+				i := fmt.Sprintf("i!r%d", e.nf)
+				e.assume(fmt.Sprintf("(forall ((%s (_ BitVec 64))) (! (=> (not (and (bvsle %s %s) (bvslt %s %s))) (= (select %s %s) (select %s %s))) :pattern ((select %s %s))))", i, lo, i, i, hi, m, i, oldIn, i, m, i))
+				e.heapSet(st, key, srt, sto(arr, a.sBase(), m))
+				if k == 0 && s == bvSort(8) {
+					// strings taken earlier from other ranges of the same array are unchanged
+					for _, r := range e.sfromReg {
+						disj := mkOr(app("bvsle", bvAdd(r.off, r.ln), lo), app("bvsle", hi, r.off))
+						e.assume(mkImp(mkAnd(mkEq(r.base, a.sBase()), disj), mkEq(app("sfrom", m, r.off, r.ln), app("sfrom", oldIn, r.off, r.ln))))
+					}
+				}
+			}
+			return nil
+		}
 		for k, s := range leafSorts(el) {
 			key := elemKey(el, k)
 			srt := arrSort(sRef, arrSort(sBV64, s))
@@ -1212,6 +1255,16 @@ func (env *SpecEnv) havocLoc(x *SExpr, st *State) error {
 		return nil
 	case "un":
 		if x.Tok == "*" {
+			if x.Args[0].Op == "id" {
+				// *name for a captured or address-taken variable: its cell
+				if c, ok := env.vars["&"+x.Args[0].Tok]; ok && c.A == nil {
+					if pt, ok := c.T.Underlying().(*types.Pointer); ok {
+						nv := e.freshVal(pt.Elem(), "mod_cell", "true")
+						e.storeAt(st, c.S, pt.Elem(), nv)
+						return nil
+					}
+				}
+			}
 			a, err := env.eval(x.Args[0])
 			if err != nil {
 				return err
